@@ -207,12 +207,12 @@ def check_std(run, restprobe):
     rng = run.rng
     calls = []
     for _ in range(1500 if run.thorough() else 400):
-        base = rng.choice(rg.BASES)
+        base = rng.choice(rg.BASE_PATHS)
         n = rng.randint(0, 4)
         p = "".join(rng.choice(["/", "/", "a", "b c", "..", ".", "//", "x?y", "#", "é", "~", ";", "a+b", "{", "}", ":", "@", "", "users",
                                 "(1)", "&", "=", "!$'*,", "中", "/./", "/../"]) for _ in range(n))
         calls.append(("join", [base, p]))
-    for b in rg.BASES:
+    for b in rg.BASE_PATHS:
         for p in rg.STR_SAFE + ["/" + s for s in rg.STR_SAFE] + ["/users/" + s + "/x" for s in rg.STR_SAFE]:
             calls.append(("join", [b, p]))
     for k in rg.HDR_KEYS + ["a", "A-b-C", "x--y", "-", "CONTENT-TYPE", "a1-b2", "x|y-z|w", "_a-_b", "etag", "X-A|B"]:
@@ -262,6 +262,13 @@ def run_shoot_all(run, shoot, mod, pkgs):
         return list(ex.map(one, pkgs))
 
 
+def base_url_suffix(b):
+    """(path, query pairs) -> what is appended to the server URL"""
+    import urllib.parse
+    path, q = b[0], b[1]
+    return path + (("?" + urllib.parse.urlencode(q)) if q else "")
+
+
 def build_cases(run, pkgs):
     rng = run.rng
     per_method = 8 if run.thorough() else 5
@@ -272,7 +279,7 @@ def build_cases(run, pkgs):
             cvars = []
             for b in bases:
                 v = "c%d" % len(clients)
-                clients.append((v, pkg["name"], ifc["name"], b))
+                clients.append((v, pkg["name"], ifc["name"], base_url_suffix(b)))
                 cvars.append((v, b))
             for m in ifc["methods"]:
                 for _ in range(per_method):
@@ -290,13 +297,21 @@ def build_cases(run, pkgs):
                     args = rg.gen_args(rng, m, pkg, cid, allow_nil_struct_on_query=True, force_nil_struct=True)
                     cases.append({"id": cid, "client": v, "base": b, "pkg": pkg, "iface": ifc, "method": m, "args": args,
                                   "model_only": "K_rest_nil_struct_ptr"})
-                if any(p["kind"] == "scalar" and p["name"] in hole_params and p["gotype"] in ("string", "Status") for p in m["params"]):
+                if any(p["kind"] == "scalar" and p["name"] in hole_params and rg.scalar_base(p["gotype"]) in ("string", "Status")
+                       for p in m["params"]):
                     v, b = rng.choice(cvars)
                     cid = len(cases)
                     args = rg.gen_args(rng, m, pkg, cid, brace_path=True)
                     if any(a[0] == "str" and "{" in a[1] for k, a in args.items() if k in hole_params):
                         cases.append({"id": cid, "client": v, "base": b, "pkg": pkg, "iface": ifc, "method": m, "args": args,
                                       "model_only": "K_rest_subst_rescan"})
+                    # texts url.JoinPath cleans or drops (the argument is not url.PathEscape'd)
+                    v, b = rng.choice(cvars)
+                    cid = len(cases)
+                    args = rg.gen_args(rng, m, pkg, cid, unsafe_path=True)
+                    if any(a[0] == "str" and a[1] in rg.STR_PATH_UNSAFE for k, a in args.items() if k in hole_params):
+                        cases.append({"id": cid, "client": v, "base": b, "pkg": pkg, "iface": ifc, "method": m, "args": args,
+                                      "model_only": "K_rest_path_percent"})
     return clients, cases
 
 
@@ -304,9 +319,10 @@ def coq_case(c, o, prefix):
     pkg, ifc, m = c["pkg"], c["iface"], c["method"]
     js = o.get("json") or {}
     return ("{| c_env := E_%s_%s; c_iface := I_%s_%s; c_method := %s; c_mspec := S_%s_%s_%s; c_hdr := H_%s_%s; c_base := %s; "
-            "c_args := %s; c_json := %s; c_obs := %s |}"
+            "c_base_query := %s; c_args := %s; c_json := %s; c_obs := %s |}"
             % (prefix, ifc["name"], prefix, ifc["name"], rg.coq_str(m["name"]), prefix, ifc["name"], m["name"], prefix, ifc["name"],
-               rg.coq_str(c["base"]), rg.coq_args(c["args"], m, pkg), rg.coq_pairs(sorted(js.items())), rg.coq_obs(o)))
+               rg.coq_str(c["base"][0]), rg.coq_pairs(c["base"][1]), rg.coq_args(c["args"], m, pkg),
+               rg.coq_pairs(sorted(js.items())), rg.coq_obs(o)))
 
 
 def read_asts(run, restast, mod, pkgs):
@@ -381,7 +397,7 @@ def case_summary(c, o):
     return {"package": c["pkg"]["name"], "interface": c["iface"]["name"], "method": m["name"], "verb": m["verb"],
             "doc": m["doc_lines"], "headers_directive": c["iface"]["hdr_line"],
             "params": [(p["name"], rg.param_go_type(p, c["pkg"])) for p in m["params"]],
-            "base_path": c["base"], "args": {k: list(v) if isinstance(v, tuple) else v for k, v in c["args"].items()},
+            "base_path": c["base"][0], "base_query": c["base"][1], "args": {k: list(v) if isinstance(v, tuple) else v for k, v in c["args"].items()},
             "observed": o}
 
 
@@ -402,7 +418,7 @@ def feature_counters(cases, obs):
          "alias_in_path": 0, "alias_in_query": 0, "ptr_scalar_nil": 0, "ptr_scalar_set": 0, "struct_value": 0,
          "struct_pointer": 0, "struct_nil_body": 0, "qualified_struct": 0, "map_param": 0, "map_nil": 0,
          "map_overrides_declared_key": 0, "field_alias": 0, "field_ptr_nil": 0, "field_getter": 0,
-         "iface_headers": 0, "quoted_path": 0, "unquoted_path": 0, "url_unsafe_path_arg": 0, "result_shapes": {},
+         "iface_headers": 0, "quoted_path": 0, "unquoted_path": 0, "path_arg_needing_escape": 0, "base_url_with_query": 0, "result_shapes": {},
          "canonical_doc_comments": 0}
     for c, o in zip(cases, obs):
         m, a = c["method"], c["args"]
@@ -418,6 +434,8 @@ def feature_counters(cases, obs):
             f["alias_in_query"] += 1
         if c["iface"]["hdr_line"]:
             f["iface_headers"] += 1
+        if c["base"][1]:
+            f["base_url_with_query"] += 1
         if canonical_comment(m["doc_lines"]):
             f["canonical_doc_comments"] += 1
         if any('"' in l for l in m["doc_lines"] if "(" in l):
@@ -429,13 +447,17 @@ def feature_counters(cases, obs):
             v = a[p["name"]]
             if p["kind"] == "ctx":
                 hasctx = True
-                if v[2]:
+                if v[0] == "ctxnil":
+                    f["nil_ctx"] = f.get("nil_ctx", 0) + 1
+                elif v[2]:
                     f["cancelled_ctx"] += 1
             elif p["kind"] == "scalar" and p["ptr"]:
                 f["ptr_scalar_nil" if v[1] is None else "ptr_scalar_set"] += 1
             elif p["kind"] == "scalar" and v[0] == "str" and p["name"] in {rg.resolve(m, h) for h in holes}:
-                if re.search(r"[^A-Za-z0-9]", v[1]) or v[1] == "":
-                    f["url_unsafe_path_arg"] += 1
+                if re.search(r"[^A-Za-z0-9._~-]", v[1]):
+                    f["path_arg_needing_escape"] += 1        # inside one segment: space ? # & = + non-ASCII quote backslash ...
+            if p["kind"] == "scalar" and p.get("qscalar"):
+                f["qualified_scalar"] = f.get("qualified_scalar", 0) + 1
             elif p["kind"] == "struct":
                 if p["qual"]:
                     f["qualified_struct"] += 1
@@ -709,8 +731,9 @@ def replay(run, path):
     ifc = next(i for i in pkg["ifaces"] if i["name"] == ri["iface"])
     m = next(x for x in ifc["methods"] if x["name"] == ri["method"])
     args = {k: tuple(v) if isinstance(v, list) else v for k, v in ri["args"].items()}
-    case = {"id": 0, "client": "c0", "base": ri["base"], "pkg": pkg, "iface": ifc, "method": m, "args": args}
-    obs, err = run_driver(run, mod, "driver", [("c0", pkg["name"], ifc["name"], ri["base"])], [case])
+    base = (ri["base"][0], [tuple(x) for x in ri["base"][1]])
+    case = {"id": 0, "client": "c0", "base": base, "pkg": pkg, "iface": ifc, "method": m, "args": args}
+    obs, err = run_driver(run, mod, "driver", [("c0", pkg["name"], ifc["name"], base_url_suffix(base))], [case])
     if obs is None:
         print("the generated client does not compile:", err[-1500:])
         print("VIOLATION property=C06 replay=%s" % path)
